@@ -39,7 +39,7 @@ type Config struct {
 
 func DefaultConfig() *Config {
 	return &Config{
-		MaxInstr: 200_000_000, MaxGoDepth: 4000, MaxDecisions: 4000, ConcretizeCap: 64,
+		MaxInstr: 200_000_000, MaxGoDepth: 4000, MaxDecisions: 4000, ConcretizeCap: 300,
 		TableIteMax: 512, MapOrderMax: 0, TimeoutMs: 10000, Workers: 8, MaxPaths: 200000,
 		MaxViolations: 1, CrossCheckPct: 5, Known: map[string]bool{},
 	}
@@ -150,6 +150,9 @@ func (in *Interp) solveAlt(c *Term, want bool, d Decision) {
 	if res == "unknown" || res == "error" {
 		// fall back to the other solvers with the complete script
 		script := w.solver.Script() + extra
+		if d := os.Getenv("GOSX_DUMP_UNKNOWN"); d != "" {
+			os.WriteFile(fmt.Sprintf("%s/q-%d-%d.smt2", d, w.id, w.nq), []byte(script+"(check-sat)\n"), 0o644)
+		}
 		for _, k := range []SolverKind{SolverZ3New, SolverCVC5} {
 			w.solver.Stats.Fallbacks++
 			t0 := time.Now()
